@@ -470,6 +470,19 @@ def gen_cases(rng: Rng, tier):
             comps = [dict(type="dense1", t=[rs(x) for x in _grid(rng, m)], X=_S(_dynrange(rng, N, m)), ck="dynrange", int=False, layout="C"),
                      _dense_comp(rng, N)]
             yield dict(kind="multi", mix="dd", comps=comps, **opts, ck="dynrange", uw_form="float-array", uw=["0", "4"])
+    # structured, in the head of every run: multivariate data with a dense component and an irregular component given with OWN sampling
+    # points whose curves have DIFFERENT SUPPORTS (partial curves, every second point): the multivariate norm takes the irregular
+    # component on the union grid, and normalize() must give unit multivariate norm
+    for rep in range(2):
+        opts = _opts(rng)
+        opts["integ"], opts["stand"] = "trapz", bool(rep)
+        N, m = 4, 9
+        U = rng.grid(m, lo=0, scale=1, uniform=True)
+        supports = [range(0, m, 2), range(0, 5), range(4, m), range(1, m, 2)]  # every second point / left part / right part / the other points
+        obs = [dict(t=[rs(U[j]) for j in sup], y=[rs(rng.dyadic(-4, 4, 3) + 2) for _ in sup]) for sup in supports]
+        ci = dict(type="irreg", enc="points", obs=obs, smooth=dict(method="LP", bw=rs(Fraction(1, 2))), ck="rand", vorder=None)
+        cd = _dense_comp(rng, N)
+        yield dict(kind="multi", mix="di", comps=[cd, ci], **opts, ck="partial-supports", uw_form="float-array", uw=["0", "4"])
     # structured, in every run: AMPLITUDE of the whole data set: a X for a = 2^-60 .. 2^60 (exact), mean level comparable to the spread;
     # every operation must be exactly homogeneous (degree 1: center, norm; 2: rescale weight; 0: normalised / standardised / rescaled values)
     for flavour in ("dense1", "dense2", "basis1", "irregular-points", "irregular-nan", "multivariate"):
